@@ -365,6 +365,13 @@ def main(tier, replay=None):
     run.cov.setdefault('timing_s', {})['proof_stage'] = round(time.time() - t0, 1)
     if not proof_ok:
         run.notes.append(run.proof_problem)
+    # second tie: the linear-optics core is re-translated from REPO's source and proved equal to Optics/Maps.v (Gen/MapsGenEquiv.v)
+    import translate_stage
+    t_tr = time.time()
+    tr = translate_stage.translator_obligation(run)
+    run.cov['timing_s']['translator_stage'] = round(time.time() - t_tr, 1)
+    if tr["status"] != "ok":
+        run.notes.append("translator obligation: " + json.dumps(translate_stage.replay_fields(tr))[:600])
     # finding F3 (Undulator R56): while it is listed `known` the faithful model is und_map (the code before the repair);
     # once it is flipped to `fixed` the faithful model is und_map_fixed (= drift_map) and a deviation is a regression
     f3_known = optics.f3_known(PID)
@@ -576,6 +583,35 @@ def main(tier, replay=None):
             name, detail, s, E = broken[0]
             run.violation({"kind": "correspondence", "broken": name, "detail": detail, "spec": s, "energy": E,
                            "n_broken": len(broken), "others": [[b[0], b[2], b[3]] for b in broken[1:6]]}, no_input=True)
+    elif tr["status"] != "ok":
+        # the source no longer translates to the model (or left the translated fragment) while every sampled point agrees:
+        # search wider with the implementation-only oracle before giving up on a failing input
+        found = None
+        extra = [(sp, EE) for sp in forced for EE in ENERGIES]
+        tries = 0
+        while len(extra) < len(forced) * len(ENERGIES) + (1500 if thorough else 400) and tries < 20000:
+            tries += 1
+            sp = random_point(run.rng)
+            if not unspecified(sp):
+                extra.append((sp, run.rng.choice(ENERGIES + [round(10 ** run.rng.uniform(math.log10(1.5e6), math.log10(5e10)), -3)])))
+        for sp, EE in extra:
+            try:
+                if fails(sp, EE):
+                    found = (sp, EE)
+                    break
+            except Exception:
+                pass
+        run.cov["translator_search_points"] = len(extra)
+        rec = translate_stage.replay_fields(tr)
+        if found:
+            sp, EE = found
+            s2 = shrink(sp, EE, fails)
+            b = oracle(s2, EE)
+            run.violation(dict(rec, kind="oracle", spec=s2, energy=EE, found_by="search after the broken translator obligation",
+                               relation="transfer_map(energy) == exp(L * S6.Hess(H)) (with edges / tilt / misalignment / kick as specified)",
+                               deviations=[{"entry": [x[0], x[1]], "observed": x[2], "expected": x[3], "tol": x[4]} for x in b[:12]]))
+        else:
+            run.violation(rec, no_input=True)
     elif not proof_ok:
         run.violation({"kind": "proof", "broken": run.proof_problem}, no_input=True)
     return run.finish("proof")
